@@ -235,9 +235,19 @@ def _r11_1(ctx, P):
         ev4 = Evaluator(P, models={"grid_ufunc:apply_as_grid_ufunc": m})
         g = make_grid()
         da = make_da("da", [dimsym("AX", "center")])
-        names = ["axis", "signature", "boundary_width", "boundary", "fill_value", "dask", "map_overlap"]
+        # every keyword the module-level function understands (plus one for xarray.apply_ufunc) is given to the method -
+        # as an explicit parameter where the method has one, through its **kwargs otherwise - and must arrive unchanged
+        target = P.func("grid_ufunc:apply_as_grid_ufunc")
+        t_pos, t_va, t_ko, t_kw = target.params
+        names = [n for n in list(t_pos) + list(t_ko) if n not in ("func", "grid")]
         vals = {n: Sym("USER_" + n) for n in names}
-        outs = ev4.run_paths(meth, lambda: dict(self=g, func=Obj("func", "userfunc"), args=(da,), kwargs={"extra_option": Sym("USER_EXTRA")}, **vals))
+        m_pos, m_va, m_ko, m_kw = meth.params
+        explicit = {n: v for n, v in vals.items() if n in list(m_pos) + list(m_ko)}
+        through_kw = {n: v for n, v in vals.items() if n not in explicit}
+        through_kw["extra_option"] = Sym("USER_EXTRA")
+        if not m_kw and len(through_kw) > 1:
+            raise Unmodelled("Grid.apply_as_grid_ufunc has no **kwargs")
+        outs = ev4.run_paths(meth, lambda: {"self": g, "func": Obj("func", "userfunc"), (m_va or "args"): (da,), (m_kw or "kwargs"): dict(through_kw), **explicit})
         if len(calls) != len(outs) or any(o.kind != "return" for o in outs):
             ctx.report("R11.1", meth, "Grid.apply_as_grid_ufunc", "does not call apply_as_grid_ufunc exactly once")
         else:
